@@ -2434,3 +2434,35 @@ theorem assembleRows_unique (kids : List Nat) (leavesOf : Nat → List Nat)
   exact hdisj _ h5 _ hc _ h6 hx
 
 end CTM.Election
+namespace CTM.Election
+open CTM.Numeric
+
+/-- every kept runner-up is a column other than the winner's that received
+    votes, reported with its share of the votes and the mean correlation over
+    the iterations that voted for it -/
+theorem chooseCols_runner_fields {V : List Nat} {C : List Rat} {T : List Nat} {iters nA : Nat}
+    {order : List Nat} {ch : Choice} (hv : ValidOrder V order)
+    (h : chooseCols V C T iters nA order = .ok ch) :
+    ∃ (w : Nat) (idxs : List Nat), ch.winner = T.getD w 0 ∧ idxs.Nodup ∧ w ∉ idxs ∧
+      (∀ i ∈ idxs, i < V.length ∧ 0 < V.getD i 0) ∧
+      (keepRunners ch.runners).1 = idxs.map (fun i => T.getD i 0) ∧
+      (keepRunners ch.runners).2.1 = idxs.map (fun i => C.getD i 0 / (V.getD i 0 : Rat)) ∧
+      (keepRunners ch.runners).2.2 = idxs.map (fun i => (V.getD i 0 : Rat) / (iters : Rat)) := by
+  obtain ⟨_, w, rest, tl2, ho, h1, _, _, k1, k2, k3⟩ := keepRunners_form' hv h
+  have hnd := hv.nodup
+  rw [ho] at hnd
+  simp only [List.nodup_cons, List.nodup_append, List.mem_append, not_or] at hnd
+  obtain ⟨⟨hwr, _⟩, hrest_nd, _, _⟩ := hnd
+  refine ⟨w, rest.filter (fun i => decide (0 < V.getD i 0)), h1,
+    hrest_nd.sublist List.filter_sublist, ?_, ?_, k1, ?_, k3⟩
+  · intro hm; exact hwr (List.mem_filter.1 hm).1
+  · intro i hi
+    obtain ⟨hir, hp⟩ := List.mem_filter.1 hi
+    exact ⟨hv.mem_lt (by rw [ho]; simp [hir]), by simpa using hp⟩
+  · rw [k2]
+    apply List.map_congr_left
+    intro i hi
+    have hp : 0 < V.getD i 0 := by simpa using (List.mem_filter.1 hi).2
+    rw [if_pos hp]
+
+end CTM.Election
